@@ -144,6 +144,33 @@ def step (s : CaseSt) (op obs : String) : CaseSt × Out :=
              mon := panicClause ++ (if obs != "panic" && !monOK then ["C20.add_contains_both"] else []),
              branch := s!"add.{kindOf e1}.{kindOf e2}" })
     | _, _ => (s, { model := "unparsable", mon := ["protocol"], branch := "bad" })
+  | "fan" :: rest =>
+    -- one error that grew message by message is merged into n others, each of which then gets its own message for the field
+    let fs := fieldsOf rest
+    let fld := decStr ((getF fs "f").getD "_")
+    let k := ((getF fs "k").bind String.toNat?).getD 1
+    let n := ((getF fs "n").bind String.toNat?).getD 2
+    let w := getF fs "w" == some "1"
+    let addV (a b : VE) : VE := (addErr (.ve a) (.ve b)).getD a
+    let common := (List.range (k - 1)).foldl (fun c i => addV c (newVE fld s!"m{i + 1}" w)) (newVE fld "m0" w)
+    let rs := (List.range n).map fun j =>
+      addV (addV (newVE (if j % 2 == 1 then fld else "o") s!"o{j}" false) common) (newVE fld s!"own{j}" w)
+    let parts := (rs.zipIdx.map fun (r, j) => s!"r{j}E={showMap (getFlat false r).1} r{j}W={showMap (getFlat true r).1}") ++
+                 [s!"cE={showMap (getFlat false common).1} cW={showMap (getFlat true common).1}"]
+    let ofs := fieldsOf (words obs)
+    -- property clause: every result contains every message of everything that was added to it
+    let contains := rs.zipIdx.all fun (_, j) =>
+      match (getF ofs s!"r{j}E").bind parseMap, (getF ofs s!"r{j}W").bind parseMap with
+      | some fe, some fw =>
+        let want (warn : Bool) := (if warn then [] else [(if j % 2 == 1 then fld else "o", s!"o{j}")]) ++
+          (if warn == w then (List.range k).map (fun i => (fld, s!"m{i}")) ++ [(fld, s!"own{j}")] else [])
+        subMultiset (want false) (pairs fe) && subMultiset (want true) (pairs fw)
+      | _, _ => false
+    let s2 : CaseSt := { s with text := op }
+    let modelStr : String := String.intercalate " " parts
+    (s2, { model := modelStr,
+           mon := panicClause ++ (if obs != "panic" && !contains then ["C20.add_contains_both"] else []),
+           branch := s!"fan.k{min k 4}.n{n}" })
   | _ => (s, { model := "bad-op", mon := ["protocol"], branch := "bad" })
 
 partial def loop (h : IO.FS.Stream) (st : Stats) (cs : CaseSt) (caseNo : String) (lineNo : Nat) : IO Stats := do
@@ -151,7 +178,7 @@ partial def loop (h : IO.FS.Stream) (st : Stats) (cs : CaseSt) (caseNo : String)
   let fin (st : Stats) : Stats :=
     let nt := match cs.tree with
       | some e => !e.kids.isEmpty && cs.reads ≥ 2
-      | none => cs.text.startsWith "add"
+      | none => cs.text.startsWith "add" || cs.text.startsWith "fan"
     if nt then { st with nontrivial := st.nontrivial.insert (hash cs.text) } else st
   if line.isEmpty then return fin st
   let line := (line.dropEndWhile (· == '\n')).toString
